@@ -105,6 +105,20 @@ def candidates():
                         and stripped.count("(") == stripped.count(")") and stripped.count("{") == stripped.count("}"):
                     out.append((name, i, "SDL", line, re.sub(r"\S.*$", "/* deleted */", line)))
                 continue
+            # condition negation and match-arm / early-return tampering (HS_SWEEP_COND=1: only these)
+            if os.environ.get("HS_SWEEP_COND"):
+                m = re.match(r"^(\s*)(\} else )?if (?!let )(.+) \{\s*$", body)
+                if m:
+                    out.append((name, i, "NEG", line, f"{m.group(1)}{m.group(2) or ''}if !({m.group(3)}) {{"))
+                m = re.match(r"^(\s*)(\} else )?if let (.+) \{\s*$", body)
+                if m and False:
+                    pass
+                m = re.match(r"^(\s*)while (?!let )(.+) \{\s*$", body)
+                if m:
+                    out.append((name, i, "NEGW", line, f"{m.group(1)}while !({m.group(2)}) {{"))
+                if re.match(r"^\s*return;\s*$", body) or re.match(r"^\s*continue;\s*$", body) or re.match(r"^\s*break;\s*$", body):
+                    out.append((name, i, "DELJ", line, re.sub(r"\S.*$", "/* deleted */", line)))
+                continue
             for pat, repls in OPS:
                 for m in re.finditer(pat, body):
                     if any(a <= m.start() < b for a, b in spans):
